@@ -20,6 +20,8 @@ fn rc_of(e: YuvError) -> u8 {
         YuvError::InvalidLumaWidth => 2,
         YuvError::InvalidLumaHeight => 3,
         YuvError::InvalidData => 4,
+        #[allow(unreachable_patterns)]
+        _ => 8,
     }
 }
 
